@@ -67,8 +67,9 @@ Definition fp_cost_consistentb (cand : list spath) : bool :=
     of ONE OF ITS OWN peer entries.  For a peering path the two chosen peer entries must
     describe the same link from both sides (each names the other's AS and the other's local
     interface).  Every metadata interface must be an interface of one of the claimed hop
-    fields, labelled with the AS of the entry the hop field comes from. *)
-Record claim := mkClaim { cl_ia : N; cl_peer : option peer; cl_hops : list (N * hopf) }.
+    fields, labelled with the AS of the entry the hop field comes from, and the metadata MTU
+    must be the minimum over the traversed ASes and links of the claimed entries. *)
+Record claim := mkClaim { cl_ia : N; cl_peer : option peer; cl_hops : list (N * hopf); cl_mtus : list N }.
 
 Definition ohop_of (h : hopf) : ohop := (hf_exp h, hf_in h, hf_eg h, hf_mac h).
 Definition ohop_eqb' (a b : ohop) : bool :=
@@ -86,11 +87,21 @@ Definition seg_claims (o : oseg) (s : segment) : list claim :=
     | ae :: rest, h0 :: hrest =>
       if negb (list_eqb ohop_eqb' (map (fun e => ohop_of (ae_hf e)) rest) hrest) then [] else
       let tail := map (fun e => (ae_ia e, ae_hf e)) rest in
+      (* MTUs the path is subject to: the internal MTU of every traversed AS, the MTU of every
+         link between two traversed entries (the later entry's ingress MTU; 0 = not given), the
+         peering link's MTU at a peering cut; at an uncut segment start a given ingress MTU *)
+      let sat := fun m => N.min m 65535 in
+      let nz := fun m => if m =? 0 then [] else [m] in
+      let tail_mtus := flat_map (fun e => sat (ae_mtu e) :: nz (ae_imtu e)) rest in
+      let is_first := Nat.eqb (length suf) (length (sg_entries s)) in
       if peering o
       then flat_map (fun p => if ohop_eqb' (ohop_of (pe_hf p)) h0
-                              then [mkClaim (ae_ia ae) (Some p) ((ae_ia ae, pe_hf p) :: tail)] else [])
+                              then [mkClaim (ae_ia ae) (Some p) ((ae_ia ae, pe_hf p) :: tail)
+                                            (sat (ae_mtu ae) :: pe_mtu p :: tail_mtus)] else [])
                     (ae_peers ae)
-      else if ohop_eqb' (ohop_of (ae_hf ae)) h0 then [mkClaim (ae_ia ae) None ((ae_ia ae, ae_hf ae) :: tail)] else []
+      else if ohop_eqb' (ohop_of (ae_hf ae)) h0
+           then [mkClaim (ae_ia ae) None ((ae_ia ae, ae_hf ae) :: tail)
+                         (sat (ae_mtu ae) :: (if is_first then nz (ae_imtu ae) else []) ++ tail_mtus)] else []
     | _, _ => []
     end) (suffixes (sg_entries s)).
 
@@ -107,7 +118,12 @@ Definition ifaces_claimed (ifs : list (N * N)) (cs : list claim) : bool :=
   let avail := flat_map (fun c => flat_map (fun '(ia, h) => [(ia, hf_in h); (ia, hf_eg h)]) (cl_hops c)) cs in
   forallb (fun i => existsb (fun a => (fst a =? fst i) && (snd a =? snd i)) avail) ifs.
 
+(** the metadata MTU is the minimum of 65535 and the claimed MTUs *)
+Definition mtu_claimed (mtu : N) (cs : list claim) : bool :=
+  mtu =? fold_right N.min 65535 (flat_map cl_mtus cs).
+
 Definition provenance_ok (inputs : list segment) (p : opath) : bool :=
+  let ifaces_claimed := fun ifs cs => ifaces_claimed ifs cs && mtu_claimed (o_mtu p) cs in
   match map (all_claims inputs) (o_segs p), o_segs p with
   | [c0], [s0] => negb (peering s0) && existsb (fun a => ifaces_claimed (o_ifs p) [a]) c0
   | [c0; c1], [s0; s1] =>
